@@ -249,6 +249,24 @@ func s15check(conf drivers.ListenConfig) func(e *vs.Exec) (string, string) {
 	}
 }
 
+// S16: the same ports go through open - Driver.Close - open - Driver.Close:
+// the second session is closed by the driver like the first.
+func s16() {
+	script(lines, 0)
+	drv, _ := midicatdrv.New()
+	ins, _ := drv.Ins()
+	outs, _ := drv.Outs()
+	in, out := ins[0], outs[0]
+	for round := 0; round < 2; round++ {
+		vs.Event("open:" + errStr(in.Open()))
+		vs.Event("open:" + errStr(out.Open()))
+		vs.Event("send:" + errStr(out.Send([]byte{0x90, 1, 2})))
+		vs.Event("driver-close:" + errStr(drv.Close()))
+		vs.Event(fmt.Sprintf("isopen:%v,%v", in.IsOpen(), out.IsOpen()))
+		vs.Event("send-after-driver-close:" + errStr(out.Send([]byte{0x90, 1, 2})))
+	}
+}
+
 // S3: the helper cannot be started twice, then can.
 func s3() {
 	script(lines, 2)
@@ -625,6 +643,10 @@ func scenarios() []scenario {
 		{"S15-options-sense-only", s15(drivers.ListenConfig{ActiveSense: true}), s15check(drivers.ListenConfig{ActiveSense: true})},
 		{"S15-options-sysex-only", s15(drivers.ListenConfig{SysEx: true}), s15check(drivers.ListenConfig{SysEx: true})},
 		{"S15-options-all", s15(drivers.ListenConfig{SysEx: true, TimeCode: true, ActiveSense: true}), s15check(drivers.ListenConfig{SysEx: true, TimeCode: true, ActiveSense: true})},
+		{"S16-two-sessions-closed-by-the-driver", s16, func(e *vs.Exec) (string, string) {
+			one := []string{"open:nil", "open:nil", "send:nil", "driver-close:nil", "isopen:false,false", "send-after-driver-close:ErrPortClosed"}
+			return expectSeq(e, []string{"open:", "send:", "driver-close:", "isopen:", "send-after-driver-close:"}, append(append([]string{}, one...), one...))
+		}},
 		{"S3-helper-cannot-start", s3, func(e *vs.Exec) (string, string) {
 			return expectSeq(e, []string{"open:", "close:", "isopen:"}, []string{"open:error", "isopen:false", "open:error", "close:nil", "open:nil", "isopen:true", "close:nil", "isopen:false"})
 		}},
